@@ -54,12 +54,16 @@ def embed(env, Q, inner, pos):
         return Q.from_(o).select(P.Case().when(o.k == 1, inner).else_(0))
     if pos == "cte":
         return Q.with_(inner, "cq").from_(P.AliasedQuery("cq")).select("a")
-    if pos == "insert-select":
+    if pos in ("insert-select", "insert-select-upsert"):
         # INSERT .. SELECT is assembled on one builder: the same calls after Query.into(table)
         q, excs = env.run([{"m": "into", "src": "T5"}] + inner._c10_hist)
         if any(excs):
             raise core.MachineryError(f"insert-select program raised: {excs}")
+        if pos == "insert-select-upsert":
+            q = q.on_conflict().do_nothing()   # (no target / assignment columns: their qualification is C11's subject)
         return q
+    if pos == "insert-value":
+        return Q.into(P.Table("t5")).insert(1, inner)
     other = Q.from_(o).select(*[o.field("k%d" % i) for i in range(nsel(inner))])  # same arity as the inner query
     if pos == "setop-base":
         return inner.union(other)
@@ -117,7 +121,7 @@ def observe(Q, d, h):
     inner = mk(h["hist"])
     arity = nsel(inner)
     benign = mk([{"m": "from_", "src": "T2"}, {"m": "select", "terms": [{"k": "fld", "src": "T2", "n": "z%d" % i} for i in range(arity)]}] + ([dict(h["hist"][-1], src="T5")] if h["hist"][-1]["m"] == "union_with" else []))  # (the twin of a set operation is a set operation: WITH RECURSIVE is chosen by the kind of the body)
-    if pos == "insert-select" or h["clause"].startswith("dml-"):
+    if pos in ("insert-select", "insert-select-upsert") or h["clause"].startswith("dml-"):
         inner_alone = str(inner)
         benign_alone = str(benign)
     else:
@@ -164,11 +168,11 @@ def run(tier: str) -> int:
         hs = hs + [dict(h, pos=p1, pos2=p2) for h in base for p1 in NEST1 for p2 in NEST2]
     for d, Q in core.query_classes().items():
         for h in hs:
-            if h["pos"] == "insert-select" and any(c["m"] == "with_" for c in h["hist"]):
+            if h["pos"] in ("insert-select", "insert-select-upsert") and any(c["m"] == "with_" for c in h["hist"]):
                 continue  # WITH legitimately precedes INSERT INTO: not an embedding of the text after a prefix
             if h["clause"].startswith("dml-") and d != "postgresql":
                 continue  # RETURNING is PostgreSQL's
-            if h["clause"].startswith("setop-") and h["pos"] in ("insert-select", "setop-base", "setop-operand", "create-as"):
+            if h["clause"].startswith("setop-") and h["pos"] in ("insert-select", "insert-select-upsert", "setop-base", "setop-operand", "create-as"):
                 continue  # (a set operation is embedded as a subquery; chaining set operations is not an embedding, as_select() takes a builder only)
             try:
                 ev = observe(Q, d, h)
